@@ -329,6 +329,50 @@ def state_tables() -> tuple[str, dict]:
                         inplace.append((q, "call ." + f.attr))
                     if any(k.arg == "out" for k in n.keywords):
                         inplace.append((q, "out= in " + ast.unparse(f)))
+    # ---- control flow: branches, loops, comprehensions
+    import re
+    mode_pat = re.compile(r"\.training\b|is_grad_enabled|\.shape\b|\.size\(|\bndim\b|\.dim\(\)|\blen\(|numel|\.device\b|\.dtype\b|"
+                          r"requires_grad|\.eval\(|\.train\(|split|chunk|unbind")
+
+    def control_rows(q, fn, everything):
+        params = [a.arg for a in fn.args.posonlyargs + fn.args.args + fn.args.kwonlyargs]
+
+        def norm(node):
+            t = ast.unparse(node)
+            for i_, a_ in enumerate(params):
+                t = re.sub(rf"(?<![\w.]){re.escape(a_)}(?!\w)", f"arg{i_}", t)
+            return " ".join(t.split())
+        out_ = []
+        for n in ast.walk(fn):
+            if isinstance(n, (ast.If, ast.While, ast.IfExp)):
+                if everything or mode_pat.search(ast.unparse(n.test)):
+                    out_.append((q, type(n).__name__, norm(n.test)))
+            elif isinstance(n, (ast.For, ast.AsyncFor)):
+                out_.append((q, "For", norm(n.iter)))
+            elif isinstance(n, (ast.ListComp, ast.GeneratorExp, ast.SetComp, ast.DictComp)):
+                for g_ in n.generators:
+                    if everything or mode_pat.search(ast.unparse(g_.iter)):
+                        out_.append((q, "Comp", norm(g_.iter)))
+            elif isinstance(n, (ast.Try, ast.With, ast.AsyncWith, ast.Match)) and everything:
+                out_.append((q, type(n).__name__, ""))
+        return out_
+
+    block_ctl, site_ctl = [], []
+    for rel, cls, entries, bases in DC_CLASSES:
+        mods = [(mod(rel), cls)] + [(mod(r), c) for r, c in bases]
+        seen, _ = _reach(cls, entries, mods)
+        anchored_cls = cls in ("MRILogLikelihood", "ConjGrad")
+        for i, q in seen:
+            for row in control_rows(q, mods[i][0].funcs[q], anchored_cls):
+                tgt = block_ctl if anchored_cls else site_ctl
+                if row not in tgt:
+                    tgt.append(row)
+    for name in ["expand_operator", "reduce_operator", "complex_multiplication", "conjugate", "complex_dot_product", "complex_division",
+                 "safe_divide"]:
+        for row in control_rows(name, tm.funcs[name], False):
+            if row not in block_ctl:
+                block_ctl.append(row)
+    ctl = lambda rows: ",\n   ".join(f"({_q(a)}, {_q(b)}, {_q(c)})" for a, b, c in rows)
     exit_rows = ", ".join(f"({_q(q)}, {n}, {'true' if last else 'false'})" for q, n, last in exits)
     inplace_rows = ", ".join(f"({_q(q)}, {_q(w)})" for q, w in inplace)
     body = ",\n   ".join(f"{{ cls := {_q(c)}, func := {_q(f)}, scope := {_q(s)}, target := {_q(t)}, how := {_q(h)} }}"
@@ -343,7 +387,14 @@ def state_tables() -> tuple[str, dict]:
             "/-- the anchored blocks and the tensor helpers under them: number of `return`s, and whether the last statement is one -/\n"
             f"def dc_block_exits : List (String × Nat × Bool) := [{exit_rows}]\n"
             "/-- in-place operations in those functions: augmented assignments, stores into an argument, `x.op_()` calls, `out=` -/\n"
-            f"def dc_block_inplace : List (String × String) := [{inplace_rows}]\n")
+            f"def dc_block_inplace : List (String × String) := [{inplace_rows}]\n"
+            "/-- EVERY branch / loop / comprehension / try / with of the functions reachable from `MRILogLikelihood.forward` and\n"
+            "`ConjGrad.forward` (+ the shape- or mode-dependent ones of the tensor helpers): (function, kind, test with the\n"
+            "parameters numbered) -/\n"
+            f"def dc_block_control : List (String × String × String) :=\n  [{ctl(block_ctl)}]\n"
+            "/-- the other data-consistency classes: every loop, and every branch / comprehension whose test mentions the mode\n"
+            "(`training`, grad mode), a shape (`shape`, `size`, `len`, `ndim`), a dtype / device, or splits / chunks a tensor -/\n"
+            f"def dc_site_control : List (String × String × String) :=\n  [{ctl(site_ctl)}]\n")
     return text, {"dc_state_writes": f"translated ({len(dedup)} writes, {len(reach_all)} functions of {len(DC_CLASSES)} classes)"}
 
 
@@ -351,4 +402,6 @@ STATE_FALLBACK = ("def dc_state_writes : List StateWrite := []\n"
                   "def dc_state_reach : List String := DataConsistency.dcRequiredReach\n"
                   "def dc_state_unresolved : List String := []\n"
                   "def dc_block_exits : List (String × Nat × Bool) := DataConsistency.dcBlockExits\n"
-                  "def dc_block_inplace : List (String × String) := []\n")
+                  "def dc_block_inplace : List (String × String) := []\n"
+                  "def dc_block_control : List (String × String × String) := DataConsistency.dcBlockControl\n"
+                  "def dc_site_control : List (String × String × String) := DataConsistency.dcSiteControl\n")
